@@ -75,7 +75,67 @@ def run(cmd, env=None, timeout=600):
         return 124, 'timeout'
 
 
+CLUSTERS = {
+    'reliability': ['C01', 'C02', 'C03', 'C04', 'C05', 'C06', 'C20', 'C13', 'C09'],
+    'discovery': ['C10', 'C11', 'C12', 'C15'],
+    'wire': ['C14', 'C15', 'C06', 'C05'],
+    'reading': ['C08', 'C09', 'C13', 'C01'],
+    'security': ['C16', 'C17', 'C18', 'C19'],
+}
+CLUSTER_OF = {'C01': 'reliability', 'C02': 'reliability', 'C03': 'reliability', 'C04': 'reliability', 'C05': 'reliability', 'C06': 'reliability', 'C20': 'reliability',
+              'C08': 'reading', 'C09': 'reading', 'C13': 'reading', 'C10': 'discovery', 'C11': 'discovery', 'C12': 'discovery', 'C15': 'wire', 'C14': 'wire',
+              'C16': 'security', 'C17': 'security', 'C18': 'security', 'C19': 'security'}
+
+
+def retest(prop, out_dir):
+    """Re-apply the survivors of one property and run the other checks of its cluster: a mutant of a shared mechanism may be another property's obligation."""
+    path = os.path.join(out_dir, prop + '.json')
+    res = json.load(open(path))
+    others = [c for c in CLUSTERS[CLUSTER_OF[prop]] if c != prop]
+    still = []
+    for rec in res['survived']:
+        full = os.path.join(WT, rec['file'])
+        src = open(full).read().split('\n')
+        i = rec['line'] - 1
+        old = src[i]
+        # regenerate the mutant line
+        new = None
+        for m in mutants(rec['file'], rec['line'], rec['line']):
+            if m[0] == i and m[3] == rec['mutation'] and m[2].strip()[:160] == rec['code']:
+                new = m[2]
+        if new is None:
+            still.append(rec)
+            continue
+        src[i] = new
+        open(full, 'w').write('\n'.join(src))
+        by = []
+        for c in others:
+            rc, out = run('cd %s && ./check %s' % (VERIF, c), env={'RDV_REPO': WT})
+            if 'VIOLATION' in out:
+                by.append(c)
+                break
+        src[i] = old
+        open(full, 'w').write('\n'.join(src))
+        if by:
+            rec['killed_by_other_property'] = by
+            res['killed'].append(rec)
+        else:
+            still.append(rec)
+        print('%s retest %s:%d %s -> %s' % (prop, rec['file'], rec['line'], rec['mutation'], by or 'SURVIVED'), flush=True)
+    res['survived'] = still
+    res['retested_against'] = others
+    json.dump(res, open(path, 'w'), indent=1)
+    print('%s after cluster retest: %d killed, %d survived' % (prop, len(res['killed']), len(res['survived'])), flush=True)
+
+
 def main():
+    if '--retest' in sys.argv:
+        out_dir = os.path.join(VERIF, 'selftest', 'mutation')
+        run('git -C /repo worktree remove --force %s; git -C /repo worktree add --detach %s HEAD && cp /repo/Cargo.lock %s/' % (WT, WT, WT))
+        for prop in [a for a in sys.argv[1:] if not a.startswith('--')]:
+            retest(prop, out_dir)
+        run('git -C /repo worktree remove --force %s' % WT)
+        return
     args = [a for a in sys.argv[1:] if not a.startswith('--')]
     mx = 80
     out_dir = os.path.join(VERIF, 'selftest', 'mutation')
